@@ -1,4 +1,4 @@
-import BoxoModel.C12.Lemmas
+import BoxoModel.C12.Termination
 /-!
 # C12 — DAG walks visit exactly the reachable nodes and report the right CIDs
 
@@ -132,6 +132,14 @@ theorem c12_par_no_deadlock (g : Graph) (cfg : Cfg) (root conc : Nat) (hc : conc
     | out ks d => exact ⟨_, rfl⟩
     | done => exact ⟨_, rfl⟩
     | err e c d => exact ⟨_, rfl⟩
+
+/-- Every schedule is finite: there is a measure on states (visitor budget × weight + weights of the items
+in flight) that every event strictly decreases. Together with `c12_par_no_deadlock` (a state without an
+enabled event has returned): under every schedule parallelWalkDepth returns after at most `m (init)` events. -/
+theorem c12_par_terminates (g : Graph) (cfg : Cfg) (root conc : Nat) :
+    ∃ m : PSt → Nat, ∀ s, PReach g cfg root conc s → ∀ i s', pstep g cfg s i = some s' → m s' < m s := by
+  obtain ⟨M, hB⟩ := bounded_exists g root
+  exact ⟨mu g cfg M, fun s hr i s' hs => (pstep_mu hB hs hr.pinv (hr.inb hB)).1⟩
 
 /-- In every reachable state — whatever the schedule, whether or not an error has occurred — only nodes
 within the limit have been visited; and when parallelWalkDepth returns nil, nothing is left in flight and
